@@ -388,7 +388,12 @@ func (r *Report) writeEvidence(outDir string, wall float64, total, discharged, n
 		"seed":        0,
 		"level":       "other",
 		"coverage":    cov,
-		"assumptions": r.assume,
+		"assumptions": append([]string{
+			"an access-path fact is killed only by an explicit store to that path in the same function (optimistic aliasing)",
+			"zero-argument getters listed in the checker's purity table, and module functions detected as pure, return the same value for the same receiver",
+			"guard atoms are independent propositions; no solver is used and no path of /repo is executed",
+			"dependencies at their pinned versions behave as documented (listed under coverage.trusted_base)",
+		}, r.assume...),
 		"wall_s":      wall,
 		"violations":  viol,
 	}
